@@ -50,9 +50,10 @@ const TOKENS: [&str; 44] = [
 ];
 
 /// well-formed lines that take the less common lock paths (database switch, creation, named snapshots)
-const LINES: [&str; 16] = [
+const LINES: [&str; 18] = [
     "use-db r tokr", "use-db q tokq", "create-db c1 t1", "create-db c2 t2 newer", "snapshot false q r", "snapshot true q", "snapshot false",
     "keys", "set k v", "remove k", "increment n 1", "watch k", "unwatch-all", "create-user u1 pw", "debug list-dbs", "cluster-state",
+    "replicate-since 10.0.0.1:3014 5", "replicate-since 10.0.0.1:3014 0",
 ];
 
 fn gen_line(rng: &mut Rng) -> String {
